@@ -2,7 +2,7 @@
    Only property theorems, each closed by quoting lemmas proved elsewhere, and Print Assumptions.
    Generated from Properties/bodies/C05.v.in by mkprop.py (shared preamble: hdr.txt, sec.txt). *)
 From Coq Require Import Arith NArith Bool List Lia.
-Require Import Canon SemTk CountTk TableProto BddBase BddIte BddCR BddSat BddCof BddCof2 BddCtor BddEval BddPaths BddPathsCount BddReach BddExport BddDot BddMinimal BddTerm Glue Machine Reachable OpSpecs.
+Require Import Canon SemTk CountTk TableProto BddBase BddIte BddCR BddSat BddCof BddCof2 BddCtor BddEval BddPaths BddPathsCount BddReach BddExport BddDot BddMinimal BddTerm BddTerm2 Glue Machine Reachable OpSpecs FuelMono FuelMono2.
 Import ListNotations.
 Local Open Scope N_scope.
 
@@ -57,9 +57,15 @@ Section C05.
     destruct (reachable_good nhash khash _ _ _ _ cap_ok _ HR') as (HI & _).
     rewrite (handle_eq_iff _ _ _ _ _ HI Va Vb). split; intros H e; [rewrite <- Sa, <- Sb|rewrite Sa, Sb]; apply H.
   Qed.
+  (* a collection always completes: with fuel three times the table capacity plus the number of roots the step yields a
+     result, in every reachable state, for every list of live roots *)
+  Theorem C05_gc_returns mr roots rl : reachable mr -> fetch_all (snd mr) roots = Some rl ->
+    exists bound, forall fuel, (bound <= fuel)%nat -> mstep fuel mr (HGc roots) <> None.
+  Proof. exact (gc_step_returns nhash khash bmask cmask0 smask0 capacity cap_ok mr roots rl). Qed.
 End C05.
 
 Print Assumptions C05_gc.
 Print Assumptions C05_meaning_preserved.
 Print Assumptions C05_after_gc_reachable.
 Print Assumptions C05_still_canonical.
+Print Assumptions C05_gc_returns.
